@@ -572,7 +572,7 @@ pub fn run(opts: &Opts) {
     }
     rep.set(
         "rule",
-        json!("differential: (key, nonce, payload, footer, assertion) drawn from a seeded generator (block-boundary lengths, all-00/ff keys and nonces, big payloads); local tokens compared byte for byte with the reference built on the OTHER primitive family, signed tokens verified by an independent verifier and tokens signed by an independent signer offered to the library; sibling backends compared with each other; distinct = distinct input tuples"),
+        json!("typed footers: reference-built local and public tokens whose footer is non-canonically spelled JSON (or differs from a lossy footer type's canonical form) opened through Json<Value> / the lossy type, must be accepted and print identically; differential: (key, nonce, payload, footer, assertion) drawn from a seeded generator (block-boundary lengths, all-00/ff keys and nonces, big payloads); local tokens compared byte for byte with the reference built on the OTHER primitive family, signed tokens verified by an independent verifier and tokens signed by an independent signer offered to the library; sibling backends compared with each other; distinct = distinct input tuples"),
     );
     rep.set(
         "unexplored",
